@@ -230,6 +230,15 @@ def _eval_expr(expr: ast.AST, env: Dict[str, object]):
         if isinstance(recv, dict):
             return tuple(getattr(recv, expr.func.attr)())
         raise Undecided(f"cannot evaluate {norm(expr)}")
+    if isinstance(expr, ast.Call) and isinstance(expr.func, ast.Name) and expr.func.id == "zip" and expr.args and not expr.keywords:
+        return tuple(zip(*[eval_expr(a, env) for a in expr.args]))
+    if isinstance(expr, ast.Call) and isinstance(expr.func, ast.Name) and expr.func.id == "enumerate" and len(expr.args) == 1 and not expr.keywords:
+        return tuple(enumerate(eval_expr(expr.args[0], env)))
+    if isinstance(expr, ast.Call) and isinstance(expr.func, ast.Name) and expr.func.id == "range" and 1 <= len(expr.args) <= 3 and not expr.keywords:
+        vals = [eval_expr(a, env) for a in expr.args]
+        if all(isinstance(v, int) and not isinstance(v, bool) for v in vals) and len(range(*vals)) <= 64:
+            return tuple(range(*vals))
+        raise Undecided(f"cannot evaluate {norm(expr)}")
     if isinstance(expr, ast.Call) and norm(expr.func) == "dict.fromkeys" and len(expr.args) == 1 and not expr.keywords:
         return dict.fromkeys(eval_expr(expr.args[0], env))
     if isinstance(expr, ast.Call) and isinstance(expr.func, ast.Name) and expr.func.id in ("set", "list", "dict") and not expr.args and not expr.keywords:
